@@ -97,8 +97,10 @@ Inductive akind := ACreate | AUpdate | ADelete | ARewrite.
 Inductive entry :=
 | EInvoke (t : tid) (q : req)
 | EDealt (t : tid) (rev : N)
-| EApplied (t : tid) (k : key) (a : akind) (rev : N) (pred : option (N * bool))
-      (* a commit took effect: new revision, and the index record it replaced *)
+| EApplied (t : tid) (q : option req) (k : key) (a : akind) (rev : N) (flag : bool) (v : bytes)
+           (pred : option (N * bool))
+      (* a commit of thread t (serving request q) took effect on key k: the index record became
+         (rev, flag), version rev got value v; pred is the index record it replaced *)
 | ENotified (t : tid) (rev : N) (valid : bool)
 | EReturn (t : tid) (r : resp).
 
@@ -168,7 +170,8 @@ Definition set_key (s : state) (k : key) (ks : kstate) : state :=
 
 (* a batch that took effect *)
 Definition apply_write (s : state) (t : tid) (k : key) (a : akind) (rev : N) (i : N * bool) (v : bytes) : state :=
-  add_log (set_key s k (k_write (kv s k) i rev v)) (EApplied t k a rev (k_idx (kv s k))).
+  add_log (set_key s k (k_write (kv s k) (rev, snd i) rev v))
+          (EApplied t (cur s t) k a rev (snd i) v (k_idx (kv s k))).
 
 (* naive.go:78-86 *)
 Definition create_decide (w : wkind) (k : key) (v : bytes) (rev : N) (old : N * bool) : pc :=
